@@ -45,6 +45,7 @@ type fakeS3 struct {
 	mu       sync.Mutex
 	objects  map[string][]byte // bucket + "\x00" + key
 	failPut  bool
+	failPutOnceAfterBody bool // the next PutObject reads the body, then fails (e.g. a lost response); later puts work
 	failGet  bool
 	failBody bool
 	puts     int
@@ -87,9 +88,17 @@ func (f *fakeS3) GetObjectWithContext(ctx aws.Context, in *s3.GetObjectInput, op
 func (f *fakeS3) PutObjectWithContext(ctx aws.Context, in *s3.PutObjectInput, opts ...request.Option) (*s3.PutObjectOutput, error) {
 	f.mu.Lock()
 	failing := f.failPut
+	once := f.failPutOnceAfterBody
+	f.failPutOnceAfterBody = false
 	f.puts++
 	f.mu.Unlock()
 	if failing {
+		return nil, errFakePut
+	}
+	if once {
+		if in.Body != nil {
+			io.ReadAll(in.Body)
+		}
 		return nil, errFakePut
 	}
 	if in.Bucket == nil || in.Key == nil || in.Body == nil {
@@ -135,7 +144,9 @@ func genC18(t *rapid.T, tier string) C18Case {
 	np := rapid.IntRange(1, 4).Draw(t, "npayloads")
 	for i := 0; i < np; i++ {
 		var b []byte
-		switch rapid.IntRange(0, 4).Draw(t, "pkind") {
+		switch rapid.IntRange(0, 5).Draw(t, "pkind") {
+		case 5:
+			b = nil // the empty byte string as a nil slice
 		case 0:
 			b = []byte{}
 		case 1:
@@ -152,11 +163,15 @@ func genC18(t *rapid.T, tier string) C18Case {
 		default:
 			b = []byte(rapid.StringN(0, 40, 80).Draw(t, "text"))
 		}
+		if b == nil {
+			c.Payloads = append(c.Payloads, "nil")
+			continue
+		}
 		c.Payloads = append(c.Payloads, base64.StdEncoding.EncodeToString(b))
 	}
 	kinds := []string{"store", "store", "store", "restore", "cstore", "load", "load", "load", "loadmissing"}
 	if c.Backend == "s3fake" {
-		kinds = append(kinds, "putfail", "getfail", "bodyfail")
+		kinds = append(kinds, "putfail", "putfailonce", "getfail", "bodyfail")
 	}
 	no := rapid.IntRange(1, 14).Draw(t, "nops")
 	for i := 0; i < no; i++ {
@@ -203,6 +218,9 @@ func runC18(c C18Case, o *run.Obs) error {
 	}
 	payloads := make([][]byte, len(c.Payloads))
 	for i, s := range c.Payloads {
+		if s == "nil" {
+			continue // stays a nil slice
+		}
 		payloads[i], _ = base64.StdEncoding.DecodeString(s)
 		if payloads[i] == nil {
 			payloads[i] = []byte{}
@@ -305,6 +323,34 @@ func runC18(c C18Case, o *run.Obs) error {
 			fake.mu.Unlock()
 			if !errors.Is(err, errFakePut) {
 				return fmt.Errorf("%s %s: the S3 client failed PutObject but Store returned %v", desc, when, err)
+			}
+		case "putfailonce":
+			fake.mu.Lock()
+			fake.failPutOnceAfterBody = true
+			fake.mu.Unlock()
+			err := p.Store(ctx, name, payload)
+			fake.mu.Lock()
+			fake.failPutOnceAfterBody = false
+			fake.mu.Unlock()
+			if err == nil {
+				// the backend error was absorbed (e.g. by a retry): then the write must really have happened
+				model[name] = payload
+				if err := load(when+" (Store reported success although a PutObject failed after its body was read)", name); err != nil {
+					return err
+				}
+			} else if !errors.Is(err, errFakePut) {
+				return fmt.Errorf("%s %s: the S3 client failed PutObject but Store returned %v", desc, when, err)
+			} else if _, known := model[name]; !known {
+				// nothing may be visible under the name unless it is complete
+				fake.mu.Lock()
+				got, exists := fake.objects[c.Bucket+"\x00"+c.Prefix+name]
+				fake.mu.Unlock()
+				if exists && !bytes.Equal(got, payload) {
+					return fmt.Errorf("%s %s: a failed Store left an object with other bytes behind", desc, when)
+				}
+				if exists {
+					model[name] = payload
+				}
 			}
 		case "getfail", "bodyfail":
 			if _, ok := model[name]; !ok {
